@@ -30,7 +30,7 @@ theorem tail_ok (hE : EnvOK env G) {sh : Shared D L} {st : St} (h : ShInv env G 
                         state := st } := by
     intro sh2 h2 hs2
     split
-    · exact ⟨(h2.setDict (hE.flush_good _ h2.good) (hE.flush_mono _)).congr rfl rfl rfl rfl rfl,
+    · exact ⟨(h2.setDict (hE.flush_good _ h2.good) (hE.flush_mono _)).congr rfl rfl rfl rfl rfl rfl,
         hs2.congr rfl rfl (hE.flush_mono _)⟩
     · exact ⟨h2, hs2⟩
   unfold tail
@@ -47,14 +47,14 @@ theorem tail_ok (hE : EnvOK env G) {sh : Shared D L} {st : St} (h : ShInv env G 
     exact .ok (key sh h hs)
 
 theorem preamble_inv {sh : Shared D L} (h : ShInv env G sh) : ShInv env G (preamble sh) :=
-  h.congr rfl rfl rfl rfl rfl
+  h.congr rfl rfl rfl rfl rfl rfl
 
 theorem applyTrans_ok {sh : Shared D L} {st : St} {t : Trans} (h : ShInv env G sh) (hs0 : StInv env sh st)
     (hs : ∀ s, t = .toState s → StInv env sh s) :
     ShInv env G (applyTrans sh st t).1 ∧ StInv env (applyTrans sh st t).1 (applyTrans sh st t).2 := by
   cases t with
-  | toState s => exact ⟨h.congr rfl rfl rfl rfl rfl, (hs s rfl).same rfl rfl⟩
-  | spin b => exact ⟨h.congr rfl rfl rfl rfl rfl, hs0.same rfl rfl⟩
+  | toState s => exact ⟨h.congr rfl rfl rfl rfl rfl rfl, (hs s rfl).same rfl rfl⟩
+  | spin b => exact ⟨h.congr rfl rfl rfl rfl rfl rfl, hs0.same rfl rfl⟩
 
 /-- the state machine part of a key, outside an open candidate list -/
 theorem dispatch_ok (hE : EnvOK env G) {e : Editor D L} (hi : EditorInv env G e) (hns : ∀ s, e.state ≠ .selecting s)
@@ -108,7 +108,7 @@ theorem startSelecting_api_ok (hE : EnvOK env G) {e : Editor D L} (hi : EditorIn
   | enteringSyllable =>
     dsimp only
     obtain ⟨⟨sh, t⟩, hq, h1, h2⟩ := startSelecting_ok (sh := { e.shared with syl := env.clearSyl e.shared.syl })
-      (hi.sh.congr rfl rfl rfl rfl rfl)
+      (hi.sh.congr rfl rfl rfl rfl rfl rfl)
     rw [hq]
     have := fin sh t h1 (by rw [hst]; trivial) h2
     rw [hst] at this
@@ -128,7 +128,7 @@ theorem cancelSelecting_api_ok {e : Editor D L} (hi : EditorInv env G e) : Edito
   unfold Editor.cancelSelecting
   split
   · refine ⟨?_, trivial⟩
-    exact (hi.sh.setComSame (ced_popCursor hi.sh.ced) (by rw [popCursor_inner])).congr rfl rfl rfl rfl rfl
+    exact (hi.sh.setComSame (ced_popCursor hi.sh.ced) (by rw [popCursor_inner])).congr rfl rfl rfl rfl rfl rfl
   · exact hi
 
 theorem commit_api_ok (hE : EnvOK env G) {e : Editor D L} (hi : EditorInv env G e) :
@@ -145,7 +145,7 @@ theorem commit_api_ok (hE : EnvOK env G) {e : Editor D L} (hi : EditorInv env G 
     exact .ok ⟨h1, by show StInv env sh e.state; rw [hst]; trivial⟩
 
 theorem clear_api_ok {e : Editor D L} (hi : EditorInv env G e) : EditorInv env G (e.clear env) := by
-  refine ⟨⟨hi.sh.good, ced_clear hi.sh.ced, ?_, hi.sh.coupled, hi.sh.perPage⟩, trivial⟩
+  refine ⟨⟨hi.sh.good, ced_clear hi.sh.ced, ?_, hi.sh.coupled, hi.sh.perPage, hi.sh.symOK⟩, trivial⟩
   intro c hc
   simp [Editor.clear, Shared.clear, CompEditor.clear, Composition.clear] at hc
 
@@ -206,7 +206,7 @@ theorem stInv_unlearn {e : Editor D L} (hi : EditorInv env G e) {d : D}
       have hw' := hw p.strategy (by simp only [selStrategy, hp])
       exact ⟨h1.com.trans (by rw [hc]), h1.lt, h1.le, h1.syl, fun c hcm => by
         rw [hd]; exact hw' c (by rw [← h1.com]; exact hcm)⟩
-    · trivial
+    · next y hp => rw [hp] at h1; exact h1
     · next sym hp => rw [hp] at h1; exact h1
   | entering => trivial
   | enteringSyllable => trivial
